@@ -4,7 +4,10 @@ import (
 	"fmt"
 	"sort"
 	"strings"
+	"time"
 
+	ipfslog "berty.tech/go-ipfs-log"
+	"berty.tech/go-ipfs-log/entry"
 	"berty.tech/go-ipfs-log/iface"
 	"berty.tech/go-ipfs-log/zvsync"
 	"github.com/ipfs/go-cid"
@@ -12,6 +15,7 @@ import (
 	"verif/engine/sched"
 	"verif/engine/seqx"
 	"verif/engine/store"
+	"verif/engine/world"
 )
 
 // ---------------------------------------------------------------------------
@@ -256,6 +260,90 @@ func judgeC11(s *stored, ls loadSpec, st *store.Store, r *loadResult, start []ci
 }
 
 // assignments enumerates every function positions -> fault over the given kinds with at most maxFaults faulty positions.
+// makeTwoLoads: two loads of the same stored log run side by side in one process (same store, the codec object every
+// load of the process shares); one block arrives late. The first load has a configured timeout shorter than the
+// block's delay, the second has none: whatever the first one gives up on, every block is retrievable for the second,
+// which therefore returns every entry; the first returns a subset. (Anything the two loads share below the API — a
+// request in flight, a cache of pending reads — must not carry one load's deadline into the other.)
+func makeTwoLoads(shape, loader string, conc, late int, bothTimed bool) sched.Scenario {
+	name := fmt.Sprintf("C11/two-loads/%s/%s/conc=%d/late@%d", shape, loader, conc, late)
+	if bothTimed {
+		name += "/both-timed"
+	}
+	return sched.Scenario{Name: name, Make: func() *sched.Instance {
+		s := getStored(shape)
+		st := s.w.St.View(len(s.w.St.Adds))
+		st.Faults[s.vals[late].GetHash().KeyString()] = store.Late
+		var start []cid.Cid
+		for _, h := range s.heads {
+			start = append(start, h.GetHash())
+		}
+		rs := [2]*loadResult{{}, {}}
+		load := func(r *loadResult, to time.Duration) func() {
+			return func() {
+				lo := &ipfslog.LogOptions{ID: "X"}
+				switch loader {
+				case "multihash":
+					r.log, r.err = ipfslog.NewFromMultihash(world.Ctx, st, world.IDs[0], s.mh, lo, &ipfslog.FetchOptions{Concurrency: conc, Timeout: to})
+				case "fetchall":
+					r.entries = entry.FetchAll(world.Ctx, st, start, &iface.FetchOptions{Concurrency: conc, Timeout: to})
+				}
+				r.ret = true
+			}
+		}
+		second := time.Duration(0)
+		if bothTimed {
+			second = time.Hour
+		}
+		return &sched.Instance{Bodies: []func(){load(rs[0], time.Second), load(rs[1], second)}, Check: func(res *zvsync.Result) (string, []sched.Finding) {
+			var fs []sched.Finding
+			out := ""
+			for i, r := range rs {
+				if !r.ret {
+					return "no-return", []sched.Finding{{Key: "load-did-not-return", What: fmt.Sprintf("load %d of two concurrent loads did not return", i+1)}}
+				}
+				if r.err != nil {
+					// the manifest itself may be the late block's victim only if it were late; it is not
+					fs = append(fs, sched.Finding{Key: "load-error:" + loader, What: fmt.Sprintf("load %d failed: %v", i+1, r.err)})
+					continue
+				}
+				es := r.entries
+				if loader != "fetchall" {
+					es = r.log.GetEntries().Slice()
+				}
+				got := map[string]bool{}
+				for _, e := range es {
+					if e == nil {
+						fs = append(fs, sched.Finding{Key: "fetch-nil-entry", What: "a load returned a nil entry"})
+						continue
+					}
+					if got[e.GetHash().String()] {
+						fs = append(fs, sched.Finding{Key: "fetch-duplicates", What: fmt.Sprintf("load %d returned %s twice", i+1, string(e.GetPayload()))})
+					}
+					got[e.GetHash().String()] = true
+				}
+				all := s.reach(start, map[string]bool{})
+				if !subset(got, all) {
+					fs = append(fs, sched.Finding{Key: "fetch-unreachable-entries", What: fmt.Sprintf("load %d returned entries that are not reachable from the heads: %v", i+1, s.names(got))})
+				}
+				ownDeadline := false
+				for _, d := range res.TimerDurs {
+					ownDeadline = ownDeadline || (bothTimed && d == time.Hour)
+				}
+				if i == 1 && ownDeadline {
+					out += "2:own-deadline-landed "
+					continue // its own (far-away) timeout landed: nothing more is promised to this load
+				}
+				if i == 1 && !subset(all, got) {
+					fs = append(fs, sched.Finding{Key: "concurrent-load-lost-retrievable-entries", What: fmt.Sprintf("every block is retrievable (one takes %v) and the second load has %s, yet it returned only %v of %v while another load of the same log with a 1s timeout ran beside it (timers fired: %v)", store.LateFor, map[bool]string{false: "no timeout", true: "a timeout of an hour"}[bothTimed], s.names(got), s.names(all), res.TimerDurs)})
+				}
+				out += fmt.Sprintf("%d:%d ", i+1, len(got))
+			}
+			return out, fs
+		}}
+	}}
+}
+
 func assignments(n int, kinds []store.Fault, maxFaults int) []map[int]int {
 	var out []map[int]int
 	cur := map[int]int{}
@@ -304,6 +392,33 @@ func c11Scenarios(tier string) []Spec {
 		concs = []int{1, 2, 3}
 		maxF = 2
 		loaders = []string{"fetchall", "multihash", "entryhash", "json", "entry"}
+	}
+	// (0) two loads side by side, one late block (bounded preemptions: two loads have many threads)
+	{
+		tl := []string{"chain3"}
+		lds := []string{"fetchall"}
+		if tier == "thorough" {
+			tl = []string{"chain3", "fork", "diamond"}
+			lds = []string{"fetchall", "multihash"}
+		}
+		for _, sh := range tl {
+			n := len(getStoredLen(sh))
+			for _, ld := range lds {
+				for _, c := range concs {
+					if c > 1 && (tier != "thorough" || sh != "chain3") {
+						continue // two loads with two workers each: 10^5..10^6 executions per scenario
+					}
+					for late := 0; late < n; late++ {
+						for _, both := range []bool{false, true} {
+							if both && tier != "thorough" && late != 1 {
+								continue
+							}
+							specs = append(specs, Spec{HBCache: true, Shards: 1, NoRace: true, Sc: makeTwoLoads(sh, ld, c, late, both)})
+						}
+					}
+				}
+			}
+		}
 	}
 	for _, sh := range shapes {
 		n := len(getStoredLen(sh))
